@@ -223,14 +223,27 @@ func c05StallOne(c *Ctx, idx, cutRel int, idle time.Duration) {
 // transport released as well is overwritten by the next reply read from the socket).
 func c05Fallback(c *Ctx) {
 	for variant := 0; variant < 2; variant++ {
-		l, u, port, err := scripted.ListenTCPUDP()
+		var l net.Listener
+		var u *net.UDPConn
+		var port int
+		var err error
+		if variant == 0 {
+			// connection refused: the TCP twin of the port is bound and never listens (a closed listener's
+			// port could be handed to somebody else meanwhile)
+			var rp *scripted.RefusePort
+			rp, u, port, err = scripted.RefuseTCPWithUDP()
+			if err == nil {
+				defer rp.Close()
+			}
+		} else {
+			l, u, port, err = scripted.ListenTCPUDP()
+		}
 		if err != nil {
 			c.Inconclusive("c05 fallback: listen: " + err.Error())
 			return
 		}
 		u.SetReadBuffer(2 << 20)
 		if variant == 0 {
-			l.Close() // connection refused
 		} else {
 			go func() { // accepted, then reset
 				for {
@@ -254,7 +267,9 @@ func c05Fallback(c *Ctx) {
 		if err != nil {
 			c.Inconclusive("c05 fallback: NewUpstream: " + err.Error())
 			srv.Close()
-			l.Close()
+			if l != nil {
+				l.Close()
+			}
 			return
 		}
 		type held struct {
@@ -326,7 +341,9 @@ func c05Fallback(c *Ctx) {
 		snap := srv.Snapshot()
 		up.Close()
 		srv.Close()
-		l.Close()
+		if l != nil {
+			l.Close()
+		}
 		nonceFor := map[uint64]string{}
 		for i := range snap.Replies {
 			rp := &snap.Replies[i]
